@@ -5,6 +5,7 @@
      that switches the mode on in orc_x86_compile
   D3 the reference paths flush explicitly: ORC_DENORMAL / ORC_DENORMAL_DOUBLE wraps the
      float inputs (and, for arithmetic, the result) in the emulator
+  D4 every float emit macro of the x86 back ends selects the table row whose mnemonic is the macro's own
 IEEE results, NaN propagation, saturation of conversions, bit-for-bit agreement: NOT decided.
 """
 from facts import AnalysisBroken, access_path, init_rows, strip_casts, unparse
@@ -99,3 +100,44 @@ def run(ctx):
                and f.name[8:] not in ARITH | INONLY | set(NOFLUSH)]
     rep.check(not unknown, "D3-EXPLICIT-FLUSH", "orc/orcopcodes-sys.c", "family-table-complete", "every FLOAT-flagged opcode is in the flushing table",
               "FLOAT-flagged opcode(s) %s are not classified in the flushing table of rules/c18.py" % unknown)
+
+    # ---- D4: a float emit macro selects the table row of the instruction it is named after ------------
+    # The back ends call instructions through macros named after them (orc_avx_sse_emit_cmplepd ...).  The row such a macro
+    # passes on must carry that mnemonic (or its VEX spelling v<mnemonic>); otherwise a rule written correctly emits a
+    # different comparison / arithmetic instruction on that path only (e.g. the 128-bit tail of the AVX back end).
+    import re as _re, json as _json
+    xt = db.tu("orcx86insn")
+    rows_ = init_rows(xt.global_("orc_x86_opcodes"))
+    idx_enum = [e for e in xt.enumdecls if any(i[0] == "ORC_X86_punpcklbw" for i in e["items"])]
+    if not idx_enum:
+        raise AnalysisBroken("OrcX86OpcodeIdx not found")
+    rowname = {k[len("ORC_X86_"):]: rows_[v]["name"] for k, v in idx_enum[0]["items"] if v < len(rows_) and isinstance(rows_[v], dict)}
+    SUF = ("load", "store", "memoffset", "memindex", "register", "imm", "reg", "si256")
+    nmac = 0
+    seen_m = set()
+    for t_ in db.tus.values():
+        for name, m in t_.macros.items():
+            mm = _re.match(r"orc_(sse|mmx|avx_sse|avx)_emit_(\w+)$", name)
+            if not mm or name in seen_m:
+                continue
+            seen_m.add(name)
+            body = m.get("body") if isinstance(m, dict) else m
+            txt = body if isinstance(body, str) else _json.dumps(body)
+            parts = mm.group(2).split("_")
+            while parts and parts[-1] in SUF:
+                parts.pop()
+            mnem = "_".join(parts)
+            for rr in _re.findall(r"ORC_X86_(\w+)", txt):
+                rn = rowname.get(rr)
+                if rn is None or not _re.search(r"(ps|pd|ss|sd)$", rn) or rn.startswith(("pun", "pack", "padd", "psub", "pabs", "pmulh")):
+                    continue
+                if not _re.match(r"^v?(add|sub|mul|div|sqrt|min|max|cmp\w*|cvt\w*|and|andn|or|xor|blendv?|mov[alhu]?|shuf|unpck[lh])(ps|pd|ss|sd)$", rn):
+                    continue
+                nmac += 1
+                rep.check(rn in (mnem, "v" + mnem), "D4-MACRO-ROW", "orc/orc%s.h" % ("avx" if "avx" in name else mm.group(1)), name,
+                          "%s selects the row `%s`" % (name, rn),
+                          "the macro %s passes the table row ORC_X86_%s (mnemonic `%s`): rules calling it emit a different floating-point instruction "
+                          "than the one they name" % (name, rr, rn))
+    if nmac < 40:
+        raise AnalysisBroken("only %d float emit macros found" % nmac)
+
